@@ -642,7 +642,7 @@ def check_C14(tier, seed):
             # SQLite's VFS (journal creation, page writes, journal deletion = the commit point), n = 1, 2, ...
             # (TraceLibrary as for statement-level crash points; TraceCommit: the files found changed are an outcome of
             #  CommitProtocol.tla - per-file atomic, attach order, no master journal)
-            y1, y2 = (3, 2) if tier == "quick" else (80, 50)
+            y1, y2 = (3, 2) if tier == "quick" else (20, 12)
             yf = {"syscrash": True}
             ws.append(Workload(s, sc if len(sc) <= y1 else r.sample(sc, y1), libcheck.NAMES4, mode="disk", flags=yf, tag="y", origin=st["instance"],
                                also=commitcheck.also()))
@@ -652,7 +652,7 @@ def check_C14(tier, seed):
             # EXCLUSIVE / RESERVED / SHARED lock on the database files right before the call's k-th statement
             # (TraceLibrary: a refused call is a Failed step; TraceContention: every statement result is the one SQLite's
             # locking protocol gives, the library rolls back and is left without lock or transaction)
-            l1, l2 = (6, 4) if tier == "quick" else (250, 150)
+            l1, l2 = (6, 4) if tier == "quick" else (60, 40)
             lf = {"locks": True, "raw": True}
             ws.append(Workload(s, sc if len(sc) <= l1 else r.sample(sc, l1), libcheck.NAMES4, mode="disk", flags=lf, tag="l", origin=st["instance"],
                                also=vlib.store_also(s) + lockcheck.also()))
